@@ -136,10 +136,27 @@ class Atoms:
             spans = dict(d)
             if full is not None:
                 spans[(('q', Fraction(-1)), ('q', Fraction(1)))] = full
-            for (lo, mid), x in d.items():
-                for (mid2, hi), y in d.items():
-                    if mid2 == mid and (lo, hi) in spans:
-                        cons.append(x.n + y.n == spans[(lo, hi)].n)
+            # every chain of adjacent sub-intervals lo -> ... -> hi sums to the atom of (lo, hi) when that atom exists
+            starts = {}
+            for (lo, hi), x in d.items():
+                starts.setdefault(lo, []).append((hi, x))
+
+            def chains(pos, target, acc, seen):
+                if pos == target and acc:
+                    yield list(acc)
+                    return
+                for (nxt, x) in starts.get(pos, ()):
+                    if nxt in seen:
+                        continue
+                    acc.append(x)
+                    seen.add(nxt)
+                    yield from chains(nxt, target, acc, seen)
+                    seen.discard(nxt)
+                    acc.pop()
+            for (lo, hi), tot in spans.items():
+                for ch in chains(lo, hi, [], {lo}):
+                    if len(ch) >= 2:
+                        cons.append(sum((x.n for x in ch[1:]), ch[0].n) == tot.n)
         return cons
 
     def raw_c0c1(self, d1, i, d2, j, c0, c1):
